@@ -57,8 +57,16 @@ def run(tier):
         if c >= 2 and (tier == "thorough" or c in edge or rnd.random() < 0.08):
             cases.append({"id": len(cases), "model": MODEL, "answer": "abort %d\n" % c, "opts": [],
                           "abs": {"code": c, "hasPrimal": False, "hasDual": False, "hasObj": False, "multi": False, "abort": True}})
+    # the further solutions of a run (sol:stub=<prefix>, a MULTISOL backend reporting 2 of them before the final
+    # result): every <prefix>N.sol carries the code the backend reported, like the final file
+    for c in codes:
+        if c >= 0 and (tier == "thorough" or c in edge or rnd.random() < 0.08):
+            ans = "status %d scripted status %d\nprimal 1 2\nobjvals 42.5\ninterm 2\n" % (c, c)
+            cases.append({"id": len(cases), "model": MODEL, "answer": ans, "opts": ["alg:iisfind=1", "alg:rays=3", "sol:stub=alt"], "collect_sols": "alt",
+                          "abs": {"code": c, "hasPrimal": True, "hasDual": False, "hasObj": True, "multi": False, "alt": 2}})
     for c_ in cases:
         c_["abs"].setdefault("abort", False)
+        c_["abs"].setdefault("alt", 0)
     results = drv.run_cases(exe, PID, cases)
     d = outdir(PID)
     trace = os.path.join(d, "trace-%s.ndjson" % tier)
@@ -88,6 +96,10 @@ def run(tier):
                                     "nprimal": s["nprimal"], "ndual": s["ndual"], "nvars": s["nvars"], "ncons": s["ncons"]}) + "\n")
             else:
                 f.write(json.dumps({"e": "Sol", "present": False, "err": r["sol_error"] or "absent"}) + "\n")
+            if a["alt"]:
+                alts = r.get("alt", [])
+                f.write(json.dumps({"e": "Alt", "n": len(alts), "unreadable": sum(1 for x in alts if x["sol"] is None),
+                                    "codes": [x["sol"]["code"] if x["sol"] and x["sol"]["code"] is not None else -99999 for x in alts]}) + "\n")
             f.write(json.dumps({"e": "Exit", "rc": r["rc"]}) + "\n")
     ok, res = validate_trace("TraceSolveCodes", "TraceSolveCodes.cfg", trace, cwd=core)
     if len(printed_json(res, "DONE")) != 1:
@@ -95,7 +107,7 @@ def run(tier):
     v = Verdict(PID)
     for b in printed_json(res, "BAD"):
         w = b["what"]
-        if w["k"] in ("classify", "sol", "exit"):
+        if w["k"] in ("classify", "sol", "exit", "alt"):
             for n in w["wrong"]:
                 v.violation("%s:%s:%d" % (w["k"], n, b["code"]),
                             "code %d: %s/%s disagrees with the documented classification (case %d, trace line %d)" % (b["code"], w["k"], n, b["id"], b["line"]),
